@@ -32,6 +32,9 @@ CHECKS["C17"] = dict(level="other", design="4/C17",
 CHECKS["C19"] = dict(level="other", design="4/C19",
    text="Solver-decided total-function checks: int_2_roman/roman_2_int on the complete domain 1..3999 (symbolic n per range, digit-table reference, both directions); arg_sort permutation + order + stability incl. reverse for symbolic int lists; sub_seq/search_sub_seq window definition incl. overlaps and ValueError; compare_pos_in_iterables = multiset equality; Batcher/BatcherIter with symbolic length and batch size (slices, sizes, last batch, len, IndexError, lock-step tuples); plus a bit-precise z3 QF_BVFP lemma tying math.ceil(n / bs) on float64 to integer ceil-division for all n, bs < 2^B.",
    note="Trusted: CrossHair+z3. Bounds: list lengths <=4/5, |s1|<=3,|s2|<=4/5, n<=7/9, bs<=8/10, fp lemma B=8 quick / 12 thorough; roman complete.")
+CHECKS["C11"] = dict(level="other", design="4/C11",
+   text="Solver-decided on a stub file system: the file content is a symbolic str (every character a solver variable inside its UTF-8 length class; shapes enumerate length and newline positions), so empty lines, missing final newline, multi-byte characters and carriage returns are all inside; len, f[i] for symbolic i (negative, out of range), slices, index lists, caller-supplied offset indexes (subset/permutation/repetition; list and index file), iteration == indexing, and interleavings of two iterators with random access on one object are compared with the split-by-newline reference for the buffered, memory-mapped, mutable(unmodified) and record variants.",
+   note="Trusted: CrossHair+z3; SymFS stub of open/mmap/readline/seek/tell (validated differentially against the real API on 264 contents every run; every counterexample replayed on real files). Bounds: content length <=2 (+7 shapes of 3) quick; <=3 full + length 4 over {newline,1-byte,3-byte} thorough.")
 NOT_YET = {}
 def main():
     props = [json.loads(l)["id"] for l in open(os.path.join(ROOT, "properties.jsonl"))]
